@@ -26,6 +26,7 @@ ABSTRACT = [
     Rec(status=200, headers=(H("x-a", "1"), H("set-cookie", "c1=1; path=/"), H("x-mw", "inner"), H("set-cookie", "c2=2; path=/")), body=("a", "b", "c"), fail=NOFAIL),
     Rec(status=204, headers=(H("x-a", "1, 2"),), body=(), fail=NOFAIL),
     Rec(status=200, headers=(H("x-dup", "1"), H("x-dup", "2")), body=("a",), fail=NOFAIL),     # repeated plain header (known finding: folded)
+    Rec(status=200, headers=(H("x-empty", ""), H("x-a", "1")), body=("a",), fail=NOFAIL),      # a header whose value is the empty string must survive
     # the body producer raises after 0 / 1 / 2 chunks (model level only: LateErrorSame; the real streams are driven further below)
     Rec(status=200, headers=(H("x-s", "1"),), body=("a", "c"), fail=0),
     Rec(status=200, headers=(H("x-s", "1"),), body=("a", "c"), fail=1),
